@@ -102,11 +102,23 @@ func genMutants(img []byte, tgs []seedTG, r *gen.R, thorough bool) []mutant {
 	n := len(img)
 	// truncation at every offset (quick: every offset up to 4 KiB images, else stride)
 	stride := 1
-	if !thorough && n > 1500 {
-		stride = n/1500 + 1
+	if !thorough && n > 400 {
+		stride = n/400 + 1
 	}
 	for cut := 0; cut < n; cut += stride {
 		add(fmt.Sprintf("truncated to %d of %d bytes", cut, n), append([]byte{}, img[:cut]...))
+	}
+	if stride > 1 {
+		// always include the record boundaries and their neighbours
+		for _, t := range tgs {
+			for _, b := range []int{t.prepStart, t.recStart, t.recStart + 1, t.recStart + 9, t.recStart + 9 + 16, t.recEnd - 16, t.recEnd, t.commitEnd} {
+				for d := -1; d <= 1; d++ {
+					if cut := b + d; cut >= 0 && cut < n {
+						add(fmt.Sprintf("truncated to %d of %d bytes", cut, n), append([]byte{}, img[:cut]...))
+					}
+				}
+			}
+		}
 	}
 	// bit flips: every bit of the structural fields, one bit per payload byte
 	structural := map[int]bool{}
@@ -131,14 +143,14 @@ func genMutants(img []byte, tgs []seedTG, r *gen.R, thorough bool) []mutant {
 				m[o] ^= 1 << uint(b)
 				add(fmt.Sprintf("bit %d of byte %d flipped", b, o), m)
 			}
-		} else if thorough || o%3 == 0 {
+		} else if thorough || o%5 == 0 {
 			m := append([]byte{}, img...)
 			m[o] ^= 1 << uint(r.Intn(8))
 			add(fmt.Sprintf("one bit of byte %d flipped", o), m)
 		}
 	}
 	// byte overwrite
-	nb := 200
+	nb := 100
 	if thorough {
 		nb = 1500
 	}
@@ -150,7 +162,7 @@ func genMutants(img []byte, tgs []seedTG, r *gen.R, thorough bool) []mutant {
 		add(fmt.Sprintf("byte %d set to 0x%02x", o, v), m)
 	}
 	// inserted garbage runs at message boundaries and inside records
-	ni := 120
+	ni := 80
 	if thorough {
 		ni = 800
 	}
